@@ -135,6 +135,16 @@ class DictProxy(dict):
         return (validated_key, validated_value)
 
     def setdefault(self, key: Any, value: Any = None) -> Any:
+        try:
+            present = self.key_field.validate(self.cfg, key) in self
+        except Exception:  # pylint: disable=broad-except
+            present = False  # reported by _validate() below
+
+        if present:
+            # nothing is stored for a key that is there: the default (None when it is omitted,
+            # which a value field may well reject) is not looked at, as with dict.setdefault
+            return self[self.key_field.validate(self.cfg, key)]
+
         key, value = self._validate(key, value)
         return super().setdefault(key, value)
 
